@@ -9,6 +9,23 @@
 static json_object *node;
 static long live0;
 
+/* fault overlay (as in vh_c07.c): fault_k >= 0: the fault_k-th allocation request of the next armed call fails */
+static long fault_k = -2;
+static int fault_hit;
+#define ARMED(call) \
+	do \
+	{ \
+		fault_hit = 0; \
+		if (fault_k >= 0) \
+			vh_alloc_arm(fault_k); \
+		call; \
+		if (fault_k >= 0) \
+		{ \
+			fault_hit = vh_nalloc > fault_k; \
+			vh_alloc_disarm(); \
+			fault_k = -2; \
+		} \
+	} while (0)
 static void observe(const char *op, int n, const unsigned char *data, size_t dlen, int ret)
 {
 	ev_begin("op");
@@ -16,6 +33,8 @@ static void observe(const char *op, int n, const unsigned char *data, size_t dle
 	ev_int("n", n);
 	ev_bytes("data", data, dlen);
 	ev_int("ret", ret);
+	ev_int("fault", fault_hit);
+	fault_hit = 0;
 	if (node)
 	{
 		int len = json_object_get_string_len(node);
@@ -86,11 +105,11 @@ static void do_new(const unsigned char *data, int n, int kind)
 		char *z = malloc((size_t)n + 1);
 		memcpy(z, data, (size_t)n);
 		z[n] = 0;
-		fresh_node = json_object_new_string(z);
+		ARMED(fresh_node = json_object_new_string(z));
 		free(z);
 	}
 	else
-		fresh_node = json_object_new_string_len((const char *)data, n);
+		ARMED(fresh_node = json_object_new_string_len((const char *)data, n));
 	if (fresh_node)
 	{
 		/* the new node replaces the one under observation; a refused creation leaves it */
@@ -111,13 +130,13 @@ static void do_set(const unsigned char *data, int n, int kind)
 		char *z = malloc((size_t)n + 1);
 		memcpy(z, data, (size_t)n);
 		z[n] = 0;
-		ret = json_object_set_string(node, z);
+		ARMED(ret = json_object_set_string(node, z));
 		free(z);
 		observe("set", -1, data, (size_t)n, ret);
 	}
 	else
 	{
-		ret = json_object_set_string_len(node, (const char *)data, n);
+		ARMED(ret = json_object_set_string_len(node, (const char *)data, n));
 		observe("setlen", n, data, n > 0 && n < 100000 ? (size_t)n : 0, ret);
 	}
 }
@@ -252,7 +271,13 @@ static int drive(int start, int nexec, int nops)
 				n = 65000; /* one long string now and then */
 			v = (int)vh_below(3);
 			fill(n, v);
-			do_set(buf, n, v == 2 && vh_below(2));
+			/* now and then the call's allocation request fails: refused, contents as they were */
+			if (vh_below(8) == 0)
+				fault_k = 0;
+			if (vh_below(12) == 0)
+				do_new(buf, n, v == 2 && vh_below(2));
+			else
+				do_set(buf, n, v == 2 && vh_below(2));
 		}
 		do_delete();
 	}
